@@ -51,22 +51,68 @@ def kinds_of_test(t: ast.AST, var: str) -> Optional[Set[str]]:
     return None
 
 
-def holder_sides(ctx) -> Dict[str, str]:
-    """kind constant -> side ('1'/'2') whose columns carry the FOREIGN KEY, read from render_reference."""
+def fk_dispatch(ctx):
+    """How render_reference dispatches on the reference kind: ({kind: [(source side, referenced side)]}, kinds whose sides could not be
+    resolved, whether `<>` goes to the join-table generator, the function).  Sides are 'col1'/'col2'.  Branch-local assignments
+    (including tuple unpacking) are followed, so `key, target = model.col1, model.col2` + one generator call after the chain is read too."""
     fi = ctx.idx.func(REFMOD, 'render_reference')
     p = [a.arg for a in fi.node.args.args][0]
+    seen: Dict[str, List[Tuple[str, str]]] = {}
+    unresolved: List[str] = []
+    m2m = False
+    gen_calls = [c for c in ast.walk(fi.node) if isinstance(c, ast.Call) and ('source_col' in {k.arg for k in c.keywords} or
+                 (len(c.args) >= 3 and norm(c.args[0]) == p))]
+
+    def side_of(e: ast.AST, local: Dict[str, str]) -> Optional[str]:
+        s_ = norm(e)
+        s_ = local.get(s_, s_)
+        return s_.replace(f'{p}.', '') if s_ in (f'{p}.col1', f'{p}.col2') else None
+    branch_ifs = [x for x in ast.walk(fi.node) if isinstance(x, ast.If) and kinds_of_test(x.test, p)]
+    for n in branch_ifs:
+        ks = kinds_of_test(n.test, p)
+        local: Dict[str, str] = {}
+        for b in n.body:
+            for a in ast.walk(b):
+                if isinstance(a, ast.Assign):
+                    for t in a.targets:
+                        if isinstance(t, ast.Name):
+                            local[t.id] = norm(a.value)
+                        elif isinstance(t, (ast.Tuple, ast.List)) and isinstance(a.value, (ast.Tuple, ast.List)) and len(t.elts) == len(a.value.elts):
+                            for te, ve in zip(t.elts, a.value.elts):
+                                if isinstance(te, ast.Name):
+                                    local[te.id] = norm(ve)
+        if any(norm(c.func) == 'generate_many_to_many_sql' for b in n.body for c in ast.walk(b) if isinstance(c, ast.Call)):
+            if 'MANY_TO_MANY' in ks:
+                m2m = True
+            continue
+        in_branch = [c for c in gen_calls if any(c is x for b in n.body for x in ast.walk(b))]
+        outside = [c for c in gen_calls if not any(any(c is y for b in x.body for y in ast.walk(b)) for x in branch_ifs)]
+        calls = in_branch or (outside if local else [])
+        if not calls:
+            unresolved.extend(ks)
+        for c in calls:
+            kw = {k.arg: k.value for k in c.keywords}
+            se = kw.get('source_col', c.args[1] if len(c.args) >= 3 else None)
+            re_ = kw.get('ref_col', c.args[2] if len(c.args) >= 3 else None)
+            a, b_ = (side_of(se, local), side_of(re_, local)) if se is not None and re_ is not None else (None, None)
+            for k in ks:
+                if a and b_:
+                    seen.setdefault(k, []).append((a, b_))
+                else:
+                    unresolved.append(k)
+    return seen, unresolved, m2m, fi
+
+
+def holder_sides(ctx) -> Dict[str, str]:
+    """kind constant -> side ('1'/'2') whose columns carry the FOREIGN KEY, read from render_reference."""
+    seen, unresolved, _, _ = fk_dispatch(ctx)
+    if unresolved:
+        raise Unrecognised(f'the FOREIGN KEY dispatch of render_reference cannot be resolved for {sorted(set(unresolved))}')
     out: Dict[str, str] = {}
-    for n in ast.walk(fi.node):
-        if isinstance(n, ast.If):
-            ks = kinds_of_test(n.test, p)
-            if not ks:
-                continue
-            for c in ast.walk(ast.Module(body=n.body, type_ignores=[])):
-                if isinstance(c, ast.Call):
-                    for kw in c.keywords:
-                        if kw.arg == 'source_col' and norm(kw.value) in (f'{p}.col1', f'{p}.col2'):
-                            for k in ks:
-                                out[k] = norm(kw.value)[-1]
+    for k, pairs in seen.items():
+        sides = {a for a, _ in pairs}
+        if len(sides) == 1:
+            out[k] = next(iter(sides))[-1]
     return out
 
 
